@@ -18,7 +18,7 @@ CONSTANTS
   NZero = 0
   MaxBal = 7
   UMax = 15
-INVARIANTS TypeOK CanClose LedgerShape Conservation HeldSigsValid TagSeparation IssuedMatchesLedger TokenOnlyAfterRevocation ClosedOnUnrevoked MerchantExposureBounded NoDoubleSpend
-PROPERTIES RefusedIsInert ReleaseOnlyOnAccept RefusedStartInert TokenIffOpens RestoreStutters ReplayRefused FaultRefused HonestAccepted
+INVARIANTS TypeOK CanClose LedgerShape Conservation HeldSigsValid TagSeparation IssuedMatchesLedger TokenOnlyAfterRevocation ClosedOnUnrevoked MerchantExposureBounded NoDoubleSpend DisputeWindow DisputePunishOld DisputeOutcomeConserves MerchantPayoffBound DisputeCustomerSafe
+PROPERTIES RefusedIsInert OutcomeOnlyByCustomer ReleaseOnlyOnAccept RefusedStartInert TokenIffOpens RestoreStutters ReplayRefused FaultRefused HonestAccepted
 VIEW View
 CHECK_DEADLOCK FALSE
